@@ -7,11 +7,18 @@ from mc import duck as D
 from mc.explore import V, HarnessError
 from mc.props import c01
 
+def seam_guard(ex):
+    """an AttributeError raised BY THE DUCK (an attribute the duck-typed calculator does not carry) is a drift of the
+    harness seam, not a property violation (DESIGN §12)"""
+    if isinstance(ex, AttributeError) and "SimpleNamespace" in str(ex):
+        raise HarnessError(f"duck-typed seam no longer matches the code: {ex}")
+
+
 ID = "C02"
 MOD = "mc.props.c02"
 RTOL = 2e-7   # gap ~ (dP/dT)^2: twice the unit-bearing tolerance of DESIGN §5, on the Q-weighted absolute scale
 
-DIMS = OrderedDict(list(c01.DIMS.items()) + [("cv", ["const", "field"])])
+DIMS = OrderedDict(list(c01.DIMS.items()) + [("cv", ["const", "field", "tiny", "large"])])
 DIMS["tgrid"] = ["std", "zero", "low", "hot", "mix"]
 SHEAR = [(a, b) for a in range(1, 7) for b in range(a, 7) if b >= 4]
 
@@ -37,6 +44,7 @@ def run_case(case):
                 gap = numpy.asarray(obj.value_adiabatic, float) - numpy.asarray(obj.value_isothermal, float)
                 direct = numpy.asarray(obj.isothermal_to_adiabatic, float)
             except Exception as ex:
+                seam_guard(ex)
                 viol.append(V(f"c02:raises:{tag}:{type(ex).__name__}", f"({i + 1},{j + 1}) raised {ex!r}"))
                 continue
             r = t[:, None] * v[None, :] * ref["dPdT"] ** 2 / (9 * (ei * ej)[None, :] * cv)
@@ -59,6 +67,52 @@ def run_case(case):
     return {"viol": viol, "nontrivial": nontrivial, "outcome": ("trivial" if not nontrivial else "ok") if not viol else viol[0]["sig"]}
 
 
+def run_reuse(case):
+    """process/object history: ONE calculator-like object evaluated several times with fresh contribution objects, its
+    temperature grid / spectrum / heat capacity replaced in between (same shapes); each evaluation must give the gap of the
+    CURRENT state.  Also: several objects built and released one after the other."""
+    from cij.core.phonon_contribution.nonshear import (
+        LongitudinalElasticModulusPhononContribution as Long,
+        OffDiagonalElasticModulusPhononContribution as Off,
+    )
+    viol = []
+    states = [dict(c01.HIST_SPECS[0], tgrid=[0.0, 300.0, 1500.0]), dict(c01.HIST_SPECS[0], tgrid=[0.0, 450.0, 900.0]),
+              dict(c01.HIST_SPECS[0], tgrid=[0.0, 300.0, 1500.0], wset="low", gset="same"), dict(c01.HIST_SPECS[0], tgrid=[10.0, 20.0, 2500.0], cv="const")]
+    duck0 = None
+    for n, k in enumerate(case["order"]):
+        spec = c01.spec_of(states[k])
+        duck, laws, w, t, v = D.build(spec)
+        if case["mode"] == "same-object" and duck0 is not None:
+            for a in ("t_array", "freq_array", "mode_gamma", "static_p_array"):
+                setattr(duck0, a, getattr(duck, a))
+            duck0.qha_calculator.volume_base.heat_capacity = duck.qha_calculator.volume_base.heat_capacity
+            duck0.qha_calculator.volume_base.pressures = duck.qha_calculator.volume_base.pressures
+            duck0.qha_calculator.volume_base.t_array = t
+            duck = duck0
+        duck0 = duck
+        e = D.strain_field("const", v)
+        ref = c01.reference(laws, w, t, v)
+        cv = duck.qha_calculator.volume_base.heat_capacity
+        for i, j in ((0, 0), (0, 1), (2, 1)):
+            try:
+                g = numpy.asarray((Long if i == j else Off)(duck, (e[:, i], e[:, j])).isothermal_to_adiabatic, float)
+            except Exception as ex:
+                seam_guard(ex)
+                viol.append(V(f"c02:object-history:raises:{type(ex).__name__}", f"evaluation #{n} of {case}: {ex!r}"))
+                return {"viol": viol, "outcome": viol[0]["sig"]}
+            r = t[:, None] * v[None, :] * ref["dPdT"] ** 2 / (9 * (e[:, i] * e[:, j])[None, :] * cv)
+            sc = t[:, None] * v[None, :] * ref["SdPdT"] ** 2 / (9 * (e[:, i] * e[:, j])[None, :] * cv)
+            if g.shape != r.shape or not numpy.all(numpy.abs(g - r) <= RTOL * sc + 1e-300):
+                viol.append(V(f"c02:object-history:{case['mode']}", f"evaluation #{n} (state {k}) of {case['order']} in mode {case['mode']}: gap c{i + 1}{j + 1} = {g.ravel()[-1]!r}, expected {r.ravel()[-1]!r}"))
+                return {"viol": viol, "outcome": viol[0]["sig"]}
+        if case["mode"] == "released":
+            import gc
+            del duck
+            duck0 = None
+            gc.collect()
+    return {"viol": viol, "nontrivial": len(case["order"]) > 1, "outcome": "reuse-ok"}
+
+
 def run_shear(case):
     """All 15 shear keys (and the 6 others as dependencies) through the real task list: adiabatic == isothermal."""
     from mc.props import c04
@@ -71,6 +125,7 @@ def run_shear(case):
     try:
         tl, keys, iso, adi = c04.run_request(duck, strain, pairs)
     except Exception as ex:
+        seam_guard(ex)
         return {"viol": [V(f"c02:shear:raises:{type(ex).__name__}", f"{ex!r}")], "outcome": "raises"}
     nons = 0
     for p, k in zip(pairs, keys):
@@ -88,7 +143,8 @@ def explore(ctx):
     ctx.rule = ("mode A: deviation lattice of C01's alphabets + heat-capacity field; each configuration evaluates the gap for all 9 "
                 "ordered (i,j) with i,j<=3 against -d2F/dTdV from mpmath; plus all 15 shear keys through the real task list "
                 "(full set, each singleton, each pair with a non-shear key) x strain fields x spectra: adiabatic bit-identical to "
-                "isothermal; non-trivial = dP/dT non-zero somewhere / non-shear gap non-zero in the same request")
+                "isothermal; mode B: all sequences of <=3 states (T grid / spectrum / C_V replaced) evaluated on ONE calculator-like object, and "
+                "on objects released one after the other; non-trivial = dP/dT non-zero somewhere / non-shear gap non-zero in the same request")
     ctx.assumptions = c01.explore.__doc__ and [] or []
     ctx.assumptions = ["as C01", "C_V is an arbitrary supplied positive field (constant, (T,V)-varying)"]
     dims = OrderedDict((k, list(v)) for k, v in DIMS.items())
@@ -112,6 +168,10 @@ def explore(ctx):
                     for q in allp[:3]:
                         shear_cases.append({"spec": sp, "strain": s, "keys": [list(q), list(p)]})
     ctx.run(MOD, "run_shear", shear_cases, part="shear-identity")
+    import itertools
+    orders = [list(p) for L in (1, 2, 3) for p in itertools.product(range(4), repeat=L)]
+    ctx.run(MOD, "run_reuse", [{"order": o, "mode": m} for o in orders for m in ("same-object", "released")], part="object-histories",
+            transitions=sum(len(o) for o in orders) * 2)
     ctx.notes["alphabets"] = {k: v for k, v in DIMS.items()}
 
 
